@@ -5,6 +5,8 @@ import "github.com/smarthome-go/homescript/v3/homescript/analyzer/ast"
 type ValueClosure struct {
 	Scopes []map[string]*Value
 	Block  ast.AnalyzedBlock
+	// The module which the closure was created in: its body runs in that module, whoever calls it.
+	Module string
 }
 
 func (_ ValueClosure) Kind() ValueKind { return ClosureValueKind }
@@ -26,9 +28,14 @@ func (self ValueClosure) IntoIter() func() (Value, bool) {
 }
 
 func NewValueClosure(block ast.AnalyzedBlock, scopes []map[string]*Value) *Value {
+	return NewValueClosureInModule(block, scopes, "")
+}
+
+func NewValueClosureInModule(block ast.AnalyzedBlock, scopes []map[string]*Value, module string) *Value {
 	val := Value(ValueClosure{
 		Scopes: scopes,
 		Block:  block,
+		Module: module,
 	})
 
 	return &val
